@@ -64,13 +64,8 @@ CLAIMED = {
         text="15 theorems. need_quotes s = false => the resolver reads s as the string s; every escape_str entry decodes back under the scanner's generated table and escape_body round-trips for ALL strings; decimal text of any i64 resolves to it; (K1-K5 repaired by 35b43be) for every string the emitter chooses the literal-block form for, block_value of the emitted block (independent spec of C05) is the string, with the side conditions case_ok; (G1 repaired by 4a46740) every key written in implicit form is one line of at most SIMPLE_KEY_MAX characters; every scalar node in every position is a Scalar presentation of itself in the block-layout language Spec/BlockLayout.v; C09_tree_is_layout_document_partial: for every well-formed tree and all four settings the emitted text is a Doc of the layout language denoting the tree (induction on the tree); C09_full_from_layout_reader_partial reduces the full round trip to ONE named statement (layout_reader_spec: the loading pipeline reads every document of the layout language as the tree it denotes), which is not proved. Assumption named in the trusted base: the text Rust's Debug prints for an f64 (float_text_ok, evaluated on every sampled case). Tie/oracle: model-emitted text = implementation text on every case; reload = original and re-emission idempotent under 4 settings: strings exhaustive <= 3/<= 4 over 20 symbols in every position, 38-atom combinations, line families, random Unicode, boundary numbers, long keys, random trees to depth 5 with complex keys (450k / 6.7M evaluations). No open known finding.",
         ref="DESIGN.md 5/C09", tech='Rocq proof (quoting/escape round trip for all strings; literal-block guard => block_value; tree -> layout-language document by induction; reduction of the full round trip to the layout reader) + emit/load round-trip oracle on implementation + model-vs-implementation text equality'),
     "C13": dict(
-        text="Theorems C13_tokens_load / _events / _loader / _parser / _numbers: for EVERY JSON value (any depth) the parser+loader+resolver "
-             "models map the token stream json_tokens v to exactly one document yaml_of_json v (numbers via the C08 completeness theorems, "
-             "duplicate names via map_insert). The scanner half (text -> tokens) is not proved; it is tied on every case by comparing the "
-             "implementation's real token stream with json_tokens v. Oracle on the implementation: expected dump from the JSON value and "
-             "the extracted c13_impl_ok, random trees x serialisations with arbitrary insignificant whitespace. Known finding: ':' followed "
-             "by TABs and a scalar is rejected (C13_text_refuted is its machine-checked witness).",
-        ref="DESIGN.md 5/C13", tech="Rocq proof (tokens -> value for all JSON values, induction on the value) + token-stream correspondence + oracle on implementation; scanner half partial"),
+        text=open(os.path.join(V, "design", "C13_manifest.txt")).read().strip(),
+        ref="DESIGN.md 5/C13", tech="Rocq proof (text -> tokens: symbolic execution of the scanner model on every JSON text, reusing C04's scalar-loop lemmas; tokens -> value: induction on the value; composed into a theorem about the whole model pipeline) + token-stream correspondence + oracle on implementation"),
     "C18": dict(
         text="7 theorems: encoding detection (BOM / first-ASCII-character preconditions stated exactly) picks the right encoding for ALL "
              "texts; decode_loop over an ABSTRACT decoder satisfying an explicit contract (Section hypotheses) terminates within linear "
